@@ -292,7 +292,7 @@ def impl(c):
 def oracle_requests(c, r):
     op, pl = c["op"], c["payload"]
     if op == "c08.tokenize":
-        return [(op, pl)]
+        return [(op, pl), ("c08.findall", pl)]
     if op == "c08.parse":
         ac, ho, mode, content_ = pl
         return [("c08.parse", [ac, ho, mode, T("p.cat"), T("cat"), content_])]
@@ -341,6 +341,9 @@ def judge(c, r, mres):
         if r != mres[0]:
             return "re.findall gives %r, the model's tokenizer %r on %s" % (
                 [proto.untext(g) for g in r], [proto.untext(g) for g in mres[0]], _show(pl))
+        if r != mres[1]:
+            return "re.findall gives %r, the model's declarative reading of the pattern %r on %s" % (
+                [proto.untext(g) for g in r], [proto.untext(g) for g in mres[1]], _show(pl))
         return None
     if op == "c08.parse":
         m = mres[0]
